@@ -45,6 +45,18 @@ def run(ctx):
             for entry, nlp in (("universal", True), ("universal", False), ("cached", True), ("legacynlp", True), ("legacyoptions", False)):
                 ties.append(dict(entry=entry, limit=rnd.choice([3, 5, 10]), nlp=nlp, fuzzy=False, thr=0, ponly=False, pboost=False,
                                  allplat=True, plats=[], nocross=False, boost=False, query="raw", raw=raw, corpus=corpus, prime="none"))
+    # main file + notebook with several entries that tie exactly: the merged order must be the same on every load
+    for raw in ("frobnicate pipeline", "errors pipeline workflow", "pipeline", "grep error log"):
+        for entry, nlp in (("universal", False), ("universal", True), ("cached", True), ("legacyoptions", False), ("pipeline", False)):
+            for lim in (2, 3, 5):
+                ties.append(dict(entry=entry, limit=lim, nlp=nlp, fuzzy=False, thr=0, ponly=entry == "pipeline", pboost=False,
+                                 allplat=True, plats=[], nocross=False, boost=False, query="raw", raw=raw, corpus="merged", prime="none"))
+    # the same query asked with a small limit first and a larger one next, on the NLP path of a long-lived database
+    for corpus in ("bigtie", "mix"):
+        for lim in (8, 20, 40):
+            for entry in ("universal", "legacynlp", "cached"):
+                ties.append(dict(entry=entry, limit=lim, nlp=True, fuzzy=False, thr=0, ponly=False, pboost=False,
+                                 allplat=True, plats=[], nocross=False, boost=False, query="lex", corpus=corpus, prime="limit1"))
     shipped = shipped_scenarios(rnd, 40 if q else 400)
     tr, info, ok, rej = engine.run_cases(ctx, base + ties + shipped, ["C02"], reps=6 if q else 25)
     for x in rej:
